@@ -189,10 +189,7 @@ fn valid_writers(thorough: bool) -> Vec<(Scenario, u32)> {
     // entering its back-pressure wait
     // (one preemption is needed to park a worker in the middle of its unit; the data is period-48 text, cheap to encode)
     for kind in [Kind::W2, Kind::WL] {
-        for (workers, units) in [(2u32, 9usize), (3, 10)] {
-            if workers == 3 && !thorough {
-                continue;
-            }
+        for (workers, units) in [(2u32, 9usize)] {
             // 1.5 M schedules per scenario at bound 1 (measured: 8 min on 16 cores for both writers): thorough tier only;
             // the quick tier explores the 2^units yield choices without preemption
             let bound = if thorough { 1 } else { 0 };
